@@ -2,4 +2,13 @@ SPEC_PART = dict(
     props_file="C13_tdigest",
     legs=[dict(family="tdigest", focus="foreign", oracles=["foreign_ok", "tie_ok", "prop_ok"], profiles=["debug", "release"],
                mask=[0, 1, 7, 8, 9, 10, 14, 15, 17, 19, 21], n_quick=150, n_thorough=1500, panic_is_violation=True)],
-    trusted=[], assumptions=[], covers="tdigest: TBD")
+    trusted=["tdigest: images are built by the generator's own encoder (tools/families/tdigest.py: enc_own, enc_ref) from random abstract "
+             "states; buffered values cannot be observed before the next compression (no hook): they are checked through total_weight and "
+             "through valid_merge of the first compression"],
+    assumptions=["tdigest: admissible content: k >= 10, finite values, weights >= 1 with total < 2^64, min/max not NaN"],
+    covers="tdigest: for ALL byte strings the modelled reader reads exactly what the layout decoder says, and every image with admissible "
+           "layout content is accepted and yields that content -- double and float flavours, empty / single / general form with buffered "
+           "values, arbitrary unused bytes and undefined flag bits, reference-implementation big-endian double and float formats "
+           "(Props/C13_tdigest.v); tie: spec-encoded images of every variant (and the two reference files) are fed to the crate: k, "
+           "total_weight, min, max, is_empty, centroids bit for bit (or a valid merge pass of buffered + centroids), then queries against "
+           "the exact model, updates, merges, round trips")
